@@ -25,15 +25,16 @@ PROPERTY = "C15"
 #  loop : b->b (self, external)
 #  hop, skip : c->b   (one transition bound to two events)
 #  halt : b->d [cond g1] (explicit, first) ; then from every non-final state -> d  (from_.any())
+#  quit : from every non-final state -> d [unless g2]  (from_.any(unless=...)); hop/skip carry unless g2
 AMX = {
     "states": ["a", "b", "c", "d"],
     "initial": "a",
     "final": ["d"],
-    "events": ["go", "back", "loop", "hop", "skip", "halt"],
+    "events": ["go", "back", "loop", "hop", "skip", "halt", "quit"],
     "trans": {
-        "a": [("go", "b", ["g1"], []), ("go", "c", [], []), ("halt", "d", [], [])],
-        "b": [("go", "c", [], []), ("back", "a", [], []), ("loop", "b", [], []), ("halt", "d", ["g1"], []), ("halt", "d", [], [])],
-        "c": [("back", "a", [], ["g2"]), ("hop", "b", [], []), ("skip", "b", [], []), ("halt", "d", [], [])],
+        "a": [("go", "b", ["g1"], []), ("go", "c", [], []), ("halt", "d", [], []), ("quit", "d", [], ["g2"])],
+        "b": [("go", "c", [], []), ("back", "a", [], []), ("loop", "b", [], []), ("halt", "d", ["g1"], []), ("halt", "d", [], []), ("quit", "d", [], ["g2"])],
+        "c": [("back", "a", [], ["g2"]), ("hop", "b", [], ["g2"]), ("skip", "b", [], ["g2"]), ("halt", "d", [], []), ("quit", "d", [], ["g2"])],
         "d": [],
     },
 }
@@ -51,52 +52,58 @@ a = State(initial=True); b = State(); c = State(); d = State(final=True)
 go = a.to(b, cond="g1") | a.to(c) | b.to(c)
 back = b.to(a) | c.to(a, unless="g2")
 loop = b.to(b)
-hop = c.to(b)
+hop = c.to(b, unless="g2")
 skip = hop
 halt = b.to(d, cond="g1") | a.to(d) | b.to(d) | c.to(d)
+quit = a.to(d, unless="g2") | b.to(d, unless="g2") | c.to(d, unless="g2")
 ''',
     "from_": '''
 a = State(initial=True); b = State(); c = State(); d = State(final=True)
 go = b.from_(a, cond="g1") | c.from_(a) | c.from_(b)
 back = a.from_(b) | a.from_(c, unless="g2")
 loop = b.from_(b)
-hop = b.from_(c)
+hop = b.from_(c, unless="g2")
 skip = hop
 halt = d.from_(b, cond="g1") | d.from_(a) | d.from_(b) | d.from_(c)
+quit = d.from_(a, b, c, unless="g2")
 ''',
     "multi": '''
 a = State(initial=True); b = State(); c = State(); d = State(final=True)
 go = a.to(b, cond="g1") | a.to(c) | b.to(c)
 back = a.from_(b) | c.to(a, unless="g2")
 loop = b.to.itself()
-hop = c.to(b)
+hop = c.to(b, unless="g2")
 skip = hop
 halt = b.to(d, cond="g1") | d.from_(a, b, c)
+quit = d.from_(a, b, c, unless="g2")
 ''',
     "any": '''
 a = State(initial=True); b = State(); c = State(); d = State(final=True)
 go = a.to(b, cond="g1") | a.to(c) | b.to(c)
 back = b.to(a) | c.to(a, unless="g2")
 loop = b.to.itself()
-hop = c.to(b)
+hop = c.to(b, unless="g2")
 skip = hop
 halt = b.to(d, cond="g1") | d.from_.any()
+quit = d.from_.any(unless="g2")
 ''',
     "event-param-str": '''
 a = State(initial=True); b = State(); c = State(); d = State(final=True)
 a.to(b, event="go", cond="g1"); a.to(c, event="go"); b.to(c, event="go")
 b.to(a, event="back"); c.to(a, event="back", unless="g2")
 b.to(b, event="loop")
-c.to(b, event="hop skip")
+c.to(b, event="hop skip", unless="g2")
 b.to(d, event="halt", cond="g1"); a.to(d, event="halt"); b.to(d, event="halt"); c.to(d, event="halt")
+a.to(d, event="quit", unless="g2"); b.to(d, event="quit", unless="g2"); c.to(d, event="quit", unless="g2")
 ''',
     "event-param-list": '''
 a = State(initial=True); b = State(); c = State(); d = State(final=True)
 go = a.to(b, cond="g1") | a.to(c) | b.to(c)
 back = b.to(a) | c.to(a, unless="g2")
 loop = b.to.itself()
-c.to(b, event=["hop", "skip"])
+c.to(b, event=["hop", "skip"], unless="g2")
 halt = b.to(d, cond="g1") | a.to(d) | b.to(d) | c.to(d)
+quit = d.from_.any(unless="g2")
 ''',
     "event-objects": '''
 a = State(initial=True); b = State(); c = State(); d = State(final=True)
@@ -104,17 +111,20 @@ go = Event(name="Go"); back = Event(); loop = Event(); hop = Event(); skip = Eve
 a.to(b, event=go, cond="g1"); a.to(c, event=go); b.to(c, event=go)
 b.to(a, event=back); c.to(a, event=back, unless="g2")
 b.to(b, event=loop)
-c.to(b, event=[hop, skip])
+c.to(b, event=[hop, skip], unless="g2")
 b.to(d, event=halt, cond="g1"); a.to(d, event=halt); b.to(d, event=halt); c.to(d, event=halt)
+quit = Event()
+d.from_(a, b, c, event=quit, unless="g2")
 ''',
     "event-wrapper": '''
 a = State(initial=True); b = State(); c = State(); d = State(final=True)
 go = Event(a.to(b, cond="g1") | a.to(c) | b.to(c), name="Go!")
 back = Event(b.to(a) | c.to(a, unless="g2"))
 loop = Event(b.to.itself())
-hop = Event(c.to(b))
+hop = Event(c.to(b, unless="g2"))
 skip = hop
 halt = Event(b.to(d, cond="g1") | a.to(d) | b.to(d) | c.to(d), id="halt")
+quit = Event(d.from_.any(unless="g2"), name="Quit")
 ''',
     "decorator": '''
 a = State(initial=True); b = State(); c = State(); d = State(final=True)
@@ -125,11 +135,12 @@ def go(self):
 def back(self):
     pass
 loop = b.to.itself()
-hop = c.to(b)
+hop = c.to(b, unless="g2")
 skip = hop
 @(b.to(d, cond="g1") | a.to(d) | b.to(d) | c.to(d))
 def halt(self):
     pass
+quit = d.from_.any(unless="g2")
 ''',
     "or-association": '''
 a = State(initial=True); b = State(); c = State(); d = State(final=True)
@@ -137,39 +148,63 @@ go = a.to(b, cond="g1") | (a.to(c) | b.to(c))
 back = b.to(a)
 back |= c.to(a, unless="g2")
 loop = b.to(b)
-hop = c.to(b)
+hop = c.to(b, unless="g2")
 skip = hop
 halt = (b.to(d, cond="g1") | a.to(d)) | (b.to(d) | c.to(d))
+quit = a.to(d, unless="g2") | (b.to(d, unless="g2") | c.to(d, unless="g2"))
 ''',
     "states-dict": '''
 sts = States({"a": State(initial=True), "b": State(), "c": State(), "d": State(final=True)})
 go = sts.a.to(sts.b, cond="g1") | sts.a.to(sts.c) | sts.b.to(sts.c)
 back = sts.b.to(sts.a) | sts.c.to(sts.a, unless="g2")
 loop = sts.b.to.itself()
-hop = sts.c.to(sts.b)
+hop = sts.c.to(sts.b, unless="g2")
 skip = hop
 halt = sts.b.to(sts.d, cond="g1") | sts.d.from_.any()
+quit = sts.d.from_.any(unless="g2")
 ''',
     "states-enum": '''
 sts = States.from_enum(Letters, initial=Letters.a, final=Letters.d)
 go = sts.a.to(sts.b, cond="g1") | sts.a.to(sts.c) | sts.b.to(sts.c)
 back = sts.b.to(sts.a) | sts.c.to(sts.a, unless="g2")
 loop = sts.b.to.itself()
-hop = sts.c.to(sts.b)
+hop = sts.c.to(sts.b, unless="g2")
 skip = hop
 halt = sts.b.to(sts.d, cond="g1") | sts.a.to(sts.d) | sts.b.to(sts.d) | sts.c.to(sts.d)
+quit = sts.a.to(sts.d, unless="g2") | sts.b.to(sts.d, unless="g2") | sts.c.to(sts.d, unless="g2")
 ''',
 }
+RENDERINGS["guard-decorators"] = '''
+a = State(initial=True); b = State(); c = State(); d = State(final=True)
+_parts = [a.to(b), c.to(a), b.to(d)]
+go = _parts[0] | a.to(c) | b.to(c)
+back = b.to(a) | _parts[1]
+loop = b.to.itself()
+hop = Event(c.to(b), name="hop")
+skip = hop
+halt = _parts[2] | a.to(d) | b.to(d) | c.to(d)
+quit = Event(d.from_(a, b, c), name="quit")
+@_parts[0].cond
+@_parts[2].cond
+def g1(self):
+    return self.vals["g1"]
+@_parts[1].unless
+@hop.unless
+@quit.unless
+def g2(self):
+    return self.vals["g2"]
+'''
 # inheritance: the base declares states and part of the events, the subclass the rest
 INHERIT_BASE = '''
 a = State(initial=True); b = State(); c = State(); d = State(final=True)
+quit = d.from_.any(unless="g2")
 go = a.to(b, cond="g1") | a.to(c) | b.to(c)
 back = b.to(a) | c.to(a, unless="g2")
 halt = b.to(d, cond="g1") | a.to(d) | b.to(d) | c.to(d)
 '''
 INHERIT_SUB = '''
 loop = Base.b.to.itself()
-hop = Base.c.to(Base.b)
+hop = Base.c.to(Base.b, unless="g2")
 skip = hop
 '''
 
@@ -179,6 +214,7 @@ class Letters(enum.Enum):
     b = 2
     c = 3
     d = 4
+    done = 4  # an alias of d: not a state of its own
 
 
 _BUILT = {}
@@ -199,7 +235,8 @@ def build(style):
         sub = "\n".join("    " + ln for ln in INHERIT_SUB.strip().splitlines())
         exec(f"class M(Base):\n{sub}\n", ns)  # noqa: S102
     else:
-        body = "\n".join("    " + ln for ln in (RENDERINGS[style] + COMMON).strip().splitlines())
+        common = "" if style == "guard-decorators" else COMMON
+        body = "\n".join("    " + ln for ln in (RENDERINGS[style] + common).strip().splitlines())
         exec(f"class M(StateMachine):\n{body}\n", ns)  # noqa: S102
     cls = ns["M"]
     for name in ("g1", "g2"):
@@ -226,7 +263,7 @@ BUDGET = {
 }
 BOUNDS = {
     "quick": "one abstract machine (4 states incl. a final one; 6 events; two candidates for (a,go) and (b,halt), cond and unless guards, a self transition, one "
-    "transition bound to two events, `halt` from every non-final state next to an explicit guarded transition to the same target) rendered in 13 styles: a.to(b), "
+    "transition bound to two events, `halt` from every non-final state next to an explicit guarded transition to the same target) rendered in 14 styles (guards also attached with @transition.cond / @event.unless decorators; the enum has an alias; a from_.any(unless=...) event): a.to(b), "
     "b.from_(a), multi-source from_(a,b,c) + to.itself(), from_.any(), event='id' / 'id id' / [ids] on the transition, id-less Event() objects passed by reference "
     "(single and in a list), Event(transitions, name=/id=), decorator-declared events, both associations of | and |=, States({...}), States.from_enum, base class + "
     "subclass; each compared with the reference rendering on states, events, allowed_events in every state, and one step from every state on every event and an "
